@@ -578,6 +578,28 @@ class Strict:
 DTYPES = {'int': int, 'str': str, 'float': float, 'bool': bool, 'list': list, 'Celsius': Celsius, 'Strict': Strict}
 VALUES = {'5': 5, "'5'": '5', "'x'": 'x', '5.0': 5.0, '5.7': 5.7, 'True': True, 'None': None, '[1]': [1], '(1,2)': (1, 2),
           "b'5'": b'5', 'Celsius(3)': Celsius(3.0), 'Strict(2)': Strict(2), "''": '', '0': 0, "' 7 '": ' 7 '}
+
+
+def _plain(d):
+    """repr without the address part"""
+    import re
+    return re.sub(r' at 0x[0-9a-fA-F]+', '', repr(d))
+
+
+def _namesake(name, base=object, **ns):
+    """ANOTHER class that merely has the name of a declared type (the `Reading` of another sensor module, a second
+    namedtuple('Reading', …)): same __name__ and __qualname__, no relation"""
+    c = type(name, (base,), dict(ns))
+    c.__qualname__ = name
+    c.__module__ = __name__
+    return c
+
+
+_OtherStrict = _namesake('Strict', v=2, __eq__=lambda a, b: False, __hash__=lambda a: 2)
+_OtherCelsius = _namesake('Celsius', __float__=lambda a: 3.0)
+_OtherInt = _namesake('int', __int__=lambda a: 5, __index__=lambda a: 5)
+_OtherList = _namesake('list', tuple)
+VALUES.update({'other.Strict()': _OtherStrict(), 'other.Celsius()': _OtherCelsius(), 'other.int()': _OtherInt(), 'other.list((1,))': _OtherList((1,))})
 OUTSIDE = {'inf': float('inf')}       # int(inf) raises OverflowError: neither TypeError nor ValueError (outside the model)
 
 
@@ -716,6 +738,37 @@ def do_typed_seq(case, res: Result):
                 f"{case['values']} ({kind!r}, same identifier): on event {k} (data {vn}) it gave result/function-calls {got}, a fresh "
                 f"predicate gives {want}", {'part': 'typed-seq', **case}))
             break
+    # the same, with events NOBODY KEEPS (a reading comes in, is judged, is dropped: the next event object may well live at the
+    # address of the one before -- identity of a dead object says nothing about the next one)
+    if not res.violations:
+        seen = []
+        shared2 = BoboPredicateCallType(lambda e, h: (seen.append((type(e.data).__name__, _plain(e.data))), case['ret'])[1], dtype, **kw)
+        values = list(case['values']) * 3
+        got2 = []
+        for vn in values:
+            seen.clear()
+            try:
+                r = shared2.evaluate(mk_event(kind, vals[vn]), BoboHistory({}))      # (the event is dropped right here)
+            except Exception as ex:      # noqa
+                r = 'raise ' + type(ex).__name__
+            got2.append((r, list(seen)))
+        want2 = []
+        for vn in values:
+            seen.clear()
+            keep = mk_event(kind, vals[vn])
+            fresh = BoboPredicateCallType(lambda e, h: (seen.append((type(e.data).__name__, _plain(e.data))), case['ret'])[1], dtype, **kw)
+            try:
+                r = fresh.evaluate(keep, BoboHistory({}))
+            except Exception as ex:      # noqa
+                r = 'raise ' + type(ex).__name__
+            want2.append((r, list(seen)))
+        for k, (g, w) in enumerate(zip(got2, want2)):
+            if g != w and 'nan' not in repr(g) + repr(w):
+                res.violations.append(Violation(
+                    'typed-stateful', f"BoboPredicateCallType(dtype={case['dtype']}, subtype={subtype}, cast={cast}) offered the events "
+                    f"{values} one at a time, each dropped after its evaluation ({kind!r}): on event {k} (data {values[k]}) it gave "
+                    f"result/function-data {g}, a fresh predicate on that event alone gives {w}", {'part': 'typed-seq', **case}))
+                break
     res.add_case({'part': 'typed-seq', **case}, nontrivial=True)
     res.count('typed_seq')
 
